@@ -562,15 +562,149 @@ fn ref_too_deep(text: &str) -> bool {
 	worst > 64
 }
 
-fn ref_parse(text: &str) -> String {
+fn ref_tree(text: &str) -> Option<Vec<TNode>> {
 	if ref_too_deep(text) {
-		return "err".into();
+		return None;
 	}
 	let mut r = Ref { s: text.chars().collect(), i: 0 };
 	match r.pipeline() {
-		Ok(p) if r.i == r.s.len() => format!("ok {}", dump_tpipe(&p)),
-		_ => "err".into(),
+		Ok(p) if r.i == r.s.len() => Some(p),
+		_ => None,
 	}
+}
+
+fn ref_parse(text: &str) -> String {
+	match ref_tree(text) {
+		Some(p) => format!("ok {}", dump_tpipe(&p)),
+		None => "err".into(),
+	}
+}
+
+// ------------------------------------------------------------------------------------------------
+// order of the operations: VPLPipeline::split and the chain the factory builds
+// ------------------------------------------------------------------------------------------------
+
+/// `C18 split <hex>`: head and tail handed to the factory (`parse_vpl(text)?.split()`), tail in text order
+fn emit_split(out: &mut Out, text: &str) {
+	let real = match catch(|| parse_vpl(text).and_then(|p| p.split())) {
+		Ok(Ok((h, t))) => format!("ok {} ({})", dump_rnode(&h), t.iter().map(dump_rnode).collect::<Vec<_>>().join("|")),
+		Ok(Err(_)) => "err".into(),
+		Err(_) => "panic".into(),
+	};
+	let expected = match ref_tree(text) {
+		Some(p) => format!("ok {} {}", dump_tnode(&p[0]), dump_tpipe(&p[1..])),
+		None => "err".into(),
+	};
+	let case = format!("C18 split {}", hs(text));
+	let tail_len = ref_tree(text).map(|p| p.len().saturating_sub(1)).unwrap_or(0);
+	out.case(&case, &real, tail_len >= 2);
+	out.count(&format!("split_tail_{}", tail_len.min(4)));
+	if real == expected {
+		out.oracle(true, "", json!(null), json!(null));
+	} else {
+		out.oracle(
+			false,
+			&format!("C18 split order: {:?} is handed to the factory as {} but the text says {}", trunc(text, 120), trunc(&real, 200), trunc(&expected, 200)),
+			json!({"kind": "split-order", "tail": tail_len.min(4)}),
+			json!({"case": case, "text": text, "impl": real, "expected": expected}),
+		);
+	}
+}
+
+/// markers (`layer_name` of the update stages) in the order the built operation prints them: outermost first
+fn debug_markers(dbg: &str) -> Vec<String> {
+	let pat = "layer_name: \"";
+	let mut v = vec![];
+	let mut rest = dbg;
+	while let Some(i) = rest.find(pat) {
+		rest = &rest[i + pat.len()..];
+		let j = rest.find('"').unwrap_or(rest.len());
+		v.push(rest[..j].to_string());
+		rest = &rest[j..];
+	}
+	v
+}
+
+fn real_chain(rt: &tokio::runtime::Runtime, dir: &Path, text: &str) -> String {
+	match catch(|| rt.block_on(async { factory(dir).operation_from_vpl(text).await.map(|op| format!("{op:?}")) })) {
+		Ok(Ok(d)) => format!("ok {}", debug_markers(&d).iter().map(|m| hs(m)).collect::<Vec<_>>().join(",")),
+		Ok(Err(_)) => "err".into(),
+		Err(_) => "panic".into(),
+	}
+}
+
+/// `C18 chain <hex>`: the operation chain that is actually constructed; `expected` = stages in text order
+fn emit_chain(out: &mut Out, rt: &tokio::runtime::Runtime, dir: &Path, text: &str, expected: Option<Vec<String>>) {
+	let real = real_chain(rt, dir, text);
+	let case = format!("C18 chain {}", hs(text));
+	out.case(&case, &real, true);
+	out.count("chain_cases");
+	let Some(exp) = expected else {
+		out.oracle(true, "", json!(null), json!(null));
+		return;
+	};
+	out.count(&format!("chain_stages_{}", exp.len().min(6)));
+	let want = format!("ok {}", exp.iter().map(|m| hs(m)).collect::<Vec<_>>().join(","));
+	if real == want {
+		out.oracle(true, "", json!(null), json!(null));
+	} else {
+		let got: Vec<String> = debug_markers_of(&real);
+		out.oracle(
+			false,
+			&format!("C18 chain order: {:?} is built with the stages nested {:?} (outermost first) but the text order demands {:?}", trunc(text, 200), got, exp),
+			json!({"kind": "chain-order", "impl_ok": real.starts_with("ok")}),
+			json!({"case": case, "text": text, "impl": real, "expected": want}),
+		);
+	}
+}
+
+fn debug_markers_of(line: &str) -> Vec<String> {
+	line.strip_prefix("ok ").map(|l| l.split(',').filter(|x| !x.is_empty()).map(|h| String::from_utf8_lossy(&unhex(h)).to_string()).collect()).unwrap_or_default()
+}
+
+/// a pipeline with marked stages; returns (text, markers in the order the built operation must print them)
+fn chain_text(rng: &mut Rng, depth: usize, counter: &mut usize) -> (String, Vec<String>) {
+	let mut s;
+	let mut head_markers: Vec<String> = vec![];
+	if depth > 1 && rng.chance(1, 2) {
+		let n = rng.range(2, 3);
+		let mut parts = vec![];
+		for _ in 0..n {
+			let (t, m) = chain_text(rng, depth - 1, counter);
+			parts.push(t);
+			head_markers.extend(m);
+		}
+		s = format!("{} [ {} ]", if rng.chance(1, 2) { "from_overlayed" } else { "from_vectortiles_merged" }, parts.join(", "));
+	} else if rng.chance(1, 2) {
+		s = "from_debug format=pbf".to_string();
+	} else {
+		s = "from_container filename=x.versatiles".to_string();
+	}
+	let k = match rng.below(6) {
+		0 => 0,
+		1 => 1,
+		2 | 3 => 2,
+		4 => 3,
+		_ => rng.range(4, 6),
+	};
+	let mut tail: Vec<String> = vec![];
+	for _ in 0..k {
+		s += if rng.chance(1, 2) { " | " } else { "|" };
+		if rng.chance(1, 4) {
+			s += &format!("filter_zoom min={} max={}", rng.below(4), rng.range(10, 20));
+		} else {
+			*counter += 1;
+			let m = format!("m{}", *counter);
+			s += &format!("vectortiles_update_properties data_source_path=data.csv id_field_data=id id_field_tiles=x layer_name={m}");
+			if rng.chance(1, 3) {
+				s += " include_id=true";
+			}
+			tail.push(m);
+		}
+	}
+	tail.reverse();
+	tail.extend(head_markers);
+	(s, tail)
 }
 
 // ------------------------------------------------------------------------------------------------
@@ -1074,6 +1208,8 @@ fn replay_line(out: &mut Out, rt: &tokio::runtime::Runtime, dir: &Path, line: &s
 			emit_parse(out, &text, &e, "replay", true);
 		}
 		"build" => emit_build(out, rt, dir, &text, None, "replay"),
+		"split" => emit_split(out, &text),
+		"chain" => emit_chain(out, rt, dir, &text, None),
 		_ => {}
 	}
 }
@@ -1081,7 +1217,7 @@ fn replay_line(out: &mut Out, rt: &tokio::runtime::Runtime, dir: &Path, line: &s
 pub fn run(args: &Args) {
 	quiet_panics();
 	let mut out = Out::new(&args.out);
-	out.rule = "parse: concrete syntax trees (depth ≤ 4, width ≤ 4; names/keys from the identifier alphabet; values with spaces, quotes, backslashes, brackets, commas, unicode, empty) × layout styles (tight / single spaces / free whitespace incl. tabs and line breaks; bare / quoted / mixed; scalar / bracketed) → expected tree = the generating tree with repeated keys appended; then 9 mutation classes of the rendered texts (delete/insert/replace a character, unbalance brackets, drop '=', break quotes/escapes, separators, truncation) judged by an independent recursive-descent reference parser; build: pipelines over the 7 real operations, well-formed or with exactly one planted defect (unknown operation, missing required parameter, mistyped number/boolean/array, duplicate scalar, unknown parameter, too few sources) → PipelineFactory::operation_from_vpl verdict. non-trivial: parse texts whose tree has ≥ 1 parameter and (≥ 2 operations or a nested source), all their mutations that differ from the original, all build cases; distinct by case text".into();
+	out.rule = "parse: concrete syntax trees (depth ≤ 4, width ≤ 4; names/keys from the identifier alphabet; values with spaces, quotes, backslashes, brackets, commas, unicode, empty) × layout styles (tight / single spaces / free whitespace incl. tabs and line breaks; bare / quoted / mixed; scalar / bracketed) → expected tree = the generating tree with repeated keys appended; then 9 mutation classes of the rendered texts (delete/insert/replace a character, unbalance brackets, drop '=', break quotes/escapes, separators, truncation) judged by an independent recursive-descent reference parser; build: pipelines over the 7 real operations, well-formed or with exactly one planted defect (unknown operation, missing required parameter, mistyped number/boolean/array, duplicate scalar, unknown parameter, too few sources) → PipelineFactory::operation_from_vpl verdict; order: parse_vpl(text)?.split() (head, tail in text order) on valid and mutated texts, and pipelines whose transform stages carry unique markers (layer_name) → the nesting order of the stages in the Debug output of the operation that the factory actually builds (outermost first = reverse text order, sources in order) vs the order demanded by the text. non-trivial: parse texts whose tree has ≥ 1 parameter and (≥ 2 operations or a nested source), all their mutations that differ from the original, all build cases; distinct by case text".into();
 	let rt = tokio::runtime::Builder::new_current_thread().enable_all().build().unwrap();
 	let dir = args.out.join("c18fix");
 	std::fs::create_dir_all(&dir).unwrap();
@@ -1238,6 +1374,32 @@ pub fn run(args: &Args) {
 			emit_build(&mut out, &rt, &dir, &text, Some(if broken { "err" } else { "ok" }), kind);
 		}
 	}
+	// order of the operations: what split() hands to the factory, and the chain that is built
+	for t in ["a", "a|b", "a|b|c", "a|b|c|d", "a k=1|b k=2|c k=3|d k=4|e k=5", "a [x|y|z, u|v|w] | b | c", "", "a |"] {
+		emit_split(&mut out, t);
+	}
+	for i in 0..args.n(400, 8000) {
+		let (text, _) = rng.pick(&valid_texts).clone();
+		if i % 4 == 0 {
+			let (mt, _) = mutate(&mut rng, &text);
+			emit_split(&mut out, &mt);
+		} else {
+			emit_split(&mut out, &text);
+		}
+	}
+	let mut counter = 0usize;
+	for (t, e) in [
+		("from_debug format=pbf | vectortiles_update_properties data_source_path=data.csv id_field_data=id id_field_tiles=x layer_name=first | vectortiles_update_properties data_source_path=data.csv id_field_data=id id_field_tiles=x layer_name=second", vec!["second", "first"]),
+		("from_debug format=pbf | vectortiles_update_properties data_source_path=data.csv id_field_data=id id_field_tiles=x layer_name=m1 | filter_zoom min=3 | vectortiles_update_properties data_source_path=data.csv id_field_data=id id_field_tiles=x layer_name=m2 | filter_zoom max=9", vec!["m2", "m1"]),
+	] {
+		emit_chain(&mut out, &rt, &dir, t, Some(e.into_iter().map(String::from).collect()));
+	}
+	for _ in 0..args.n(400, 6000) {
+		let depth = rng.range(1, 3) as usize;
+		let (text, exp) = chain_text(&mut rng, depth, &mut counter);
+		emit_chain(&mut out, &rt, &dir, &text, Some(exp));
+	}
+
 	// head/tail position and syntax errors through the factory
 	for (t, e) in [
 		("filter_zoom min=1", "err"),
